@@ -13,7 +13,6 @@ import (
 	"hash"
 	"maps"
 	"math"
-	"path/filepath"
 	"runtime"
 	"slices"
 	"sort"
@@ -490,11 +489,9 @@ func (t *RaftTransaction) ListPage(ctx context.Context, prefix string, after str
 	}
 
 	prefixBytes := []byte(prefix)
-	fullAfter := filepath.Join(prefix, after)
-	seekPrefix := []byte(fullAfter)
-	if after == "" {
-		seekPrefix = prefixBytes
-	}
+
+	// See listPageInner: after must not be cleaned up as a path.
+	seekPrefix := []byte(prefix + after)
 
 	// Assume the bucket exists and has keys.
 	c := t.tx.Bucket(dataBucketName).Cursor()
